@@ -18,7 +18,7 @@ def obligations(prop, tier, seed, wd, out):
     for j in jobs:
         j.what = 'shape %s, %s: from an arbitrary related pair of states one reference step and exactly cost(r,pc) real VM steps lead to related states (same control flow, live variables equal, older frames untouched, stop iff line event)' % (j.name.split('.')[1], j.entry)
         j.bounds = 'one reference position; all literal values (31 bit) and all variable values; execution length unbounded by induction'
-        j.timeout = 600
+        j.timeout = 600 if tier == 'quick' else 1500
         if j.entry.startswith('h_sim_') and j.entry != 'h_sim_base':
             import vm as _vm
             j.layout = _vm.LAYOUT      # these obligations construct VM states field by field
